@@ -44,14 +44,15 @@ def run(ctx, rep):
         own = eq.cls == k
         tr = Transformer(ix, T, [eq], name=f"{ci.name}.__eq__")
         selfn, othern = eq.params[0], eq.params[1]
+        lefts, rights = operand_aliases(eq)
         # nested helper functions of __eq__ (are_equal) are part of it
         nodes = list(ast.walk(eq.node))
         read_self, read_other = set(), set()
         for n in nodes:
             if isinstance(n, ast.Attribute) and isinstance(n.ctx, ast.Load) and isinstance(n.value, ast.Name):
-                if n.value.id == selfn:
+                if n.value.id in lefts:
                     read_self |= tr.returned_fields(k, n.attr)
-                elif n.value.id == othern:
+                elif n.value.id in rights:
                     read_other |= tr.returned_fields(k, n.attr)
         fields = ix.init_fields(k)
         for fld, info in fields.items():
@@ -104,7 +105,7 @@ def run(ctx, rep):
             ):
                 # every attribute read on `other` must be inside the try body
                 inside = {id(m) for s in st.body for m in ast.walk(s)}
-                outside_reads = [m for m in nodes if isinstance(m, ast.Attribute) and isinstance(m.value, ast.Name) and m.value.id == othern and id(m) not in inside]
+                outside_reads = [m for m in nodes if isinstance(m, ast.Attribute) and isinstance(m.value, ast.Name) and m.value.id in rights and id(m) not in inside]
                 # reads inside nested helper defs are called from the try body
                 outside_reads = [m for m in outside_reads if not any(isinstance(d, ast.FunctionDef) and any(x is m for x in ast.walk(d)) for d in eq.node.body)]
                 total = not outside_reads
@@ -121,7 +122,7 @@ def run(ctx, rep):
         for n in nodes:
             if isinstance(n, ast.Compare) and any(isinstance(o, (ast.Is, ast.IsNot)) for o in n.ops):
                 ops = [n.left] + list(n.comparators)
-                if any(isinstance(o, ast.Attribute) and isinstance(o.value, ast.Name) and o.value.id in (selfn, othern) for o in ops) and not any(isinstance(o, ast.Constant) or (isinstance(o, ast.Name) and o.id == "all") for o in ops):
+                if any(isinstance(o, ast.Attribute) and isinstance(o.value, ast.Name) and o.value.id in (lefts | rights) for o in ops) and not any(isinstance(o, ast.Constant) or (isinstance(o, ast.Name) and o.id == "all") for o in ops):
                     bad = n
         rets = [s for s in iter_stmts(eq.body) if isinstance(s, ast.Return)]
         early_true = [r for r in rets[:-1] if isinstance(r.value, ast.Constant) and r.value.value is True]
@@ -182,14 +183,14 @@ def run(ctx, rep):
     for k in eq_classes:
         eq = ix.classes[k].methods["__eq__"]
         selfn, othern = eq.params[0], eq.params[1]
-        other_reads = {m.attr for m in ast.walk(eq.node) if isinstance(m, ast.Attribute) and isinstance(m.value, ast.Name) and m.value.id == othern}
+        lefts, rights = operand_aliases(eq)
         for st in iter_stmts(eq.body):
             if not isinstance(st, ast.If):
                 continue
             t = st.test
             if isinstance(t, ast.UnaryOp) and isinstance(t.op, ast.Not):
                 t = t.operand
-            if not (isinstance(t, ast.Attribute) and isinstance(t.value, ast.Name) and t.value.id == selfn):
+            if not (isinstance(t, ast.Attribute) and isinstance(t.value, ast.Name) and t.value.id in lefts):
                 continue
             if not any(isinstance(x, ast.Return) for x in ast.walk(st)):
                 continue
@@ -199,7 +200,7 @@ def run(ctx, rep):
             # the same property (or the fields it is computed from) must be read on other as well
             # .. in a test (a read inside one of the branches does not make the split symmetric)
             test_reads = {m.attr for s_ in iter_stmts(eq.body) if isinstance(s_, ast.If) for m in ast.walk(s_.test)
-                          if isinstance(m, ast.Attribute) and isinstance(m.value, ast.Name) and m.value.id == othern}
+                          if isinstance(m, ast.Attribute) and isinstance(m.value, ast.Name) and m.value.id in rights}
             fields = tr_fields(ix, k, t.attr)
             if t.attr in test_reads or (fields and fields <= {a.lstrip("_") for a in test_reads} | test_reads | {"_" + a for a in test_reads}):
                 rep.ok("C20.7", cons, f"`{othern}.{t.attr}` is consulted too", loc)
@@ -207,6 +208,36 @@ def run(ctx, rep):
                 rep.violation("C20.7", cons, f"`if {ast.unparse(st.test)}:` decides how the operands are compared without looking at `{othern}.{t.attr}`: a fundamental `register q[2]` equals the alias `map q r` (same name, same size) while the alias does not equal the register -- and the two denote different physical qubits", loc, witness="register r[2]; register q[2]   vs   register r[2]; map q r")
     if n7 == 0:
         rep.ok("C20.7", "ir:__eq__:case-splits", "no __eq__ branches on a property of self alone")
+
+
+def operand_aliases(eq):
+    """Local names that stand for the left and for the right operand inside
+    an __eq__: the parameters, names bound to them (`a, b = self, other`)
+    and such a name rebound to an attribute of itself (`a = a.alias_from`,
+    the walk along a chain of like objects)."""
+    selfn, othern = eq.params[0], eq.params[1]
+    left, right = {selfn}, {othern}
+    changed = True
+    while changed:
+        changed = False
+        for n in ast.walk(eq.node):
+            if not isinstance(n, ast.Assign) or len(n.targets) != 1:
+                continue
+            tgt, val = n.targets[0], n.value
+            if isinstance(tgt, ast.Tuple) and isinstance(val, ast.Tuple) and len(tgt.elts) == len(val.elts):
+                pairs = list(zip(tgt.elts, val.elts))
+            else:
+                pairs = [(tgt, val)]
+            for t, v in pairs:
+                if not isinstance(t, ast.Name):
+                    continue
+                for side in (left, right):
+                    if t.id in side:
+                        continue
+                    if isinstance(v, ast.Name) and v.id in side:
+                        side.add(t.id)
+                        changed = True
+    return left, right
 
 
 def tr_fields(ix, k, attr):
